@@ -79,7 +79,7 @@ def run_case(c):
         raw = '[Trash Info]\nPath=%s\n' % ('/home/u/w/e%d' % i if t == scen.HOME_TRASH else 'w/e%d' % i)
         raw += ''.join(l + '\n' for l in date_lines(cls, c['days']))
         nm = 'e%d' % i
-        scen.add_trashed(W, t, nm, None, raw=raw, payload=('file', 'tree', 'ldir', 'empty')[i % 4])
+        scen.add_trashed(W, t, nm, None, raw=raw, payload=('file', 'ldang', 'tree', 'ldir', 'empty')[(i + len(c['ms'])) % 5])
         ents.append((nm, cls, raw.encode(), t))
     for t in tds:
         W.file(t + '/files/orphan', 'orphan payload\n')
